@@ -219,7 +219,7 @@ fn sequences<T: Copy>(alpha: &[T], len: usize) -> Vec<Vec<T>> {
 }
 
 pub fn run_c08(ctx: &Ctx) -> i32 {
-    let depth = ctx.opt_usize("depth").unwrap_or(ctx.tier.pick(5, 7));
+    let depth = ctx.opt_usize("depth").unwrap_or(ctx.tier.pick(5, 8));
     let cfgs: Vec<(u32, i64)> = vec![(1000, 0), (0, 12345), (50_000, 12345), (u32::MAX, 0)];
     // first symbol x configuration are the parallel work items
     let tails = sequences(&ALL_OUT, depth - 1);
@@ -262,7 +262,7 @@ pub fn run_c08(ctx: &Ctx) -> i32 {
     // phase 2: poll outcomes through the real poller AND the real writer loop (PHC configured): the
     // status must be the documented one for the outcome, where "within / beyond the grace period" is
     // what the age of the last good answer says
-    let p2_depth = ctx.opt_usize("pipeline_depth").unwrap_or(ctx.tier.pick(4, 5));
+    let p2_depth = ctx.opt_usize("pipeline_depth").unwrap_or(ctx.tier.pick(4, 6));
     let mut p2_alpha: Vec<Step> = vec![];
     for (ans, readable) in [(Ans::TrackA, true), (Ans::TrackA, false), (Ans::TrackB, true), (Ans::Unsync, true), (Ans::Stale, true), (Ans::Silent, true)] {
         for gap in [1000i64, 5100] {
@@ -392,7 +392,7 @@ fn client_status(path: &std::path::Path, client: Option<&mut ClockBoundClient>, 
 }
 
 pub fn run_c09(ctx: &Ctx) -> i32 {
-    let depth = ctx.opt_usize("depth").unwrap_or(ctx.tier.pick(5, 7));
+    let depth = ctx.opt_usize("depth").unwrap_or(ctx.tier.pick(5, 8));
     let seqs = sequences(&NONSYNC_OUT, depth);
     let uptimes: Vec<i64> = vec![100, 5000];
     let chunk = 512;
@@ -536,7 +536,7 @@ fn ref_classify(leap: u16, interval_bits: u32, age_ns: i128) -> Option<u32> {
 
 pub fn run_c10(ctx: &Ctx) -> i32 {
     let tier = ctx.tier;
-    let intervals: Vec<f64> = tier.pick(vec![0.0, 0.25, 1.0, 16.3, 1024.0], vec![0.0, 0.25, 1.0, 4.0, 16.3, 64.0, 1024.0]);
+    let intervals: Vec<f64> = tier.pick(vec![0.0, 0.25, 1.0, 16.3, 1024.0], vec![0.0, 1e-9, 0.001, 0.125, 0.25, 0.3, 1.0, 2.0, 4.0, 16.0, 16.3, 64.0, 1000.0, 1024.0, 65536.0, 1e6]);
     let leap_step = ctx.opt_usize("leap_step").unwrap_or(1);
     let leaps: Vec<u32> = (0..65536u32).step_by(leap_step).collect();
     let chunk = 256;
@@ -847,8 +847,8 @@ pub fn run_c13(ctx: &Ctx) -> i32 {
 
 pub fn run_c12(ctx: &Ctx) -> i32 {
     let mut sink = Sink::new();
-    let deltas: Vec<i64> = ctx.tier.pick(vec![0, 1, 1_000_000, 10 * S as i64], vec![0, 1, 999, 1_000_000, S as i64, 10 * S as i64]);
-    let lats: Vec<i128> = ctx.tier.pick(vec![0, 10_000_000, 2_900_000_000], vec![0, 1, 10_000_000, 999_999_999, 2_900_000_000]);
+    let deltas: Vec<i64> = ctx.tier.pick(vec![0, 1, 1_000_000, 10 * S as i64], vec![0, 1, 2, 999, 1000, 1_000_000, 4_000_000, S as i64, 3 * S as i64, 10 * S as i64, 1000 * S as i64]);
+    let lats: Vec<i128> = ctx.tier.pick(vec![0, 10_000_000, 2_900_000_000], vec![0, 1, 1000, 10_000_000, 999_999_999, 1_000_000_000, 2_900_000_000, 10_000_000_000]);
     let mut n = 0u64;
     let mut samples = vec![];
     // daemon side
